@@ -17,4 +17,4 @@ for pid in sorted(gen_glue.TARGETS):
     assert all(v != "missing" for _, v in entries), [k for k, v in entries if v == "missing"]
     out += f"Definition glue_{pid} : list (string * string) := {gen_glue.coq_list(entries)}.\n\n"
 open(os.path.join(HERE, "coq/Model/GlueFacts.v"), "w").write(out)
-print("GlueFacts.v written:", sum(len(v) for v in gen_glue.TARGETS.values()), "entries")
+print("GlueFacts.v written:", sum(len(gen_glue.targets(repo, p)) for p in gen_glue.TARGETS), "entries")
